@@ -191,6 +191,15 @@ func newMergeTarget() mergeTarget {
 	}
 }
 
+// add adds the given block to the merge target. The height of the target is the height of its
+// highest block: the blocks of a target are not necessarily at the same height.
+func (mt *mergeTarget) add(c cid.Cid, block *coreblock.Block) {
+	mt.heads[c] = block
+	if priority := block.Delta.GetPriority(); priority > mt.headHeight {
+		mt.headHeight = priority
+	}
+}
+
 // loadComposites retrieves and stores into the merge processor the composite blocks for the given
 // CID until it reaches a block that has already been merged or until we reach the genesis block.
 func (mp *mergeProcessor) loadComposites(
@@ -226,7 +235,13 @@ func (mp *mergeProcessor) loadComposites(
 		}
 	} else {
 		newMT := newMergeTarget()
-		for _, b := range mt.heads {
+		for headCid, b := range mt.heads {
+			if b.Delta.GetPriority() <= block.Delta.GetPriority() {
+				// This part of the merge target is not above the new block, it has to stay in the
+				// target: the new block might have branched off from it.
+				newMT.add(headCid, b)
+				continue
+			}
 			for _, link := range b.Heads {
 				nd, err := mp.blockLS.Load(linking.LinkContext{Ctx: ctx}, link, coreblock.BlockSchemaPrototype)
 				if err != nil {
@@ -238,8 +253,7 @@ func (mp *mergeProcessor) loadComposites(
 					return err
 				}
 
-				newMT.heads[link.Cid] = childBlock
-				newMT.headHeight = childBlock.Delta.GetPriority()
+				newMT.add(link.Cid, childBlock)
 			}
 		}
 		return mp.loadComposites(ctx, blockCid, newMT)
@@ -543,9 +557,7 @@ func getHeadsAsMergeTarget(ctx context.Context, key keys.HeadstoreKey) (mergeTar
 			return mergeTarget{}, err
 		}
 
-		mt.heads[cid] = block
-		// All heads have the same height so overwriting is ok.
-		mt.headHeight = block.Delta.GetPriority()
+		mt.add(cid, block)
 	}
 	return mt, nil
 }
